@@ -2,11 +2,11 @@ module qeepverif
 
 go 1.22
 
-require github.com/sahandsafizadeh/qeep v0.0.0
-
 require (
-	golang.org/x/exp v0.0.0-20231110203233-9a3e6036ecaa // indirect
-	gonum.org/v1/gonum v0.15.1 // indirect
+	github.com/sahandsafizadeh/qeep v0.0.0
+	golang.org/x/exp v0.0.0-20231110203233-9a3e6036ecaa
 )
+
+require gonum.org/v1/gonum v0.15.1 // indirect
 
 replace github.com/sahandsafizadeh/qeep => /repo
